@@ -150,7 +150,12 @@ func (n *node) record(kind string, ids map[string]uint32, owner func(id uint32) 
 }
 
 func (n *node) genMetric(ns, name string) (metric.ID, bool) {
-	id, err := n.meta.GenMetricID([]byte(ns), []byte(name))
+	// names reach the metadata database as sub-slices of a block buffer that the write path reuses for the
+	// next block: whatever the database keeps must be a copy
+	nsb, nameb := []byte(ns), []byte(name)
+	id, err := n.meta.GenMetricID(nsb, nameb)
+	scribble(nsb)
+	scribble(nameb)
 	if err != nil {
 		n.c.Anomaly("GenMetricID: %v", err)
 		return 0, false
@@ -160,6 +165,13 @@ func (n *node) genMetric(ns, name string) (metric.ID, bool) {
 	n.record("metric", n.l.metricID, func(i uint32) (string, bool) { s, ok := n.l.metricOf[i]; return s, ok },
 		func(i uint32, s string) { n.l.metricOf[i] = s }, key, uint32(id))
 	return id, true
+}
+
+// scribble overwrites a buffer the caller owns again after the call.
+func scribble(b []byte) {
+	for i := range b {
+		b[i] = '#'
+	}
 }
 
 func (n *node) genField(mid metric.ID, f string) {
@@ -199,6 +211,7 @@ func (n *node) genSeries(shard int, ns, name string, ts int) {
 		return
 	}
 	sid, err := idb.GenSeriesID(mid, row)
+	scribble(blk) // the row's block is reused once the row is done
 	if err != nil {
 		n.c.Anomaly("GenSeriesID: %v", err)
 		return
